@@ -669,6 +669,7 @@ async fn random_episode(p: &EpParams) -> EpReport {
         crossings_after_ack: 0,
         modifies: 0,
         nacks: 0,
+        dup_nacks: 0,
         stream_acks: 0,
     };
     seq.create_topic(&c.t.clone()).await;
